@@ -176,7 +176,7 @@ class Env:
 
     # ---- index terms used for eager instantiation of quantified hypotheses
     def index_terms(self):
-        return [z3.IntVal(0), z3.IntVal(1), self.n - 1, self.n - 2]
+        return [z3.IntVal(0), self.n - 1]
 
     # ---- well-formedness precondition of an assembled powertrain (from C10/C20 postconditions)
     def assume_wellformed(self, fields_set=()):
